@@ -2,6 +2,7 @@ package exec
 
 import (
 	"go/types"
+	"strconv"
 
 	"golang.org/x/tools/go/ssa"
 )
@@ -130,5 +131,40 @@ func init() {
 		msg := e.concat(a[1].(Str), e.strFromGo("\n"))
 		call("Write", e.convert(msg, types.Typ[types.String], types.NewSlice(types.Typ[types.Byte])))
 		return nil
+	})
+}
+
+// floating point is not modelled symbolically: strconv's float conversions are computed natively on
+// concrete operands (a symbolic operand ends the path as unsupported)
+func init() {
+	reg("strconv.ParseFloat", func(e *Exec, fn *ssa.Function, a []Value) Value {
+		s, ok := e.goString(a[0].(Str))
+		if !ok {
+			e.unsupported("strconv.ParseFloat of a symbolic string (floating point is not modelled)")
+		}
+		f, err := strconv.ParseFloat(s, e.concInt(a[1]))
+		if err != nil {
+			return Tuple{Float{C: f}, e.errorValue(err.Error())}
+		}
+		return Tuple{Float{C: f}, Iface{}}
+	})
+	reg("strconv.FormatFloat", func(e *Exec, fn *ssa.Function, a []Value) Value {
+		f := a[0].(Float)
+		if f.Opaque {
+			e.unsupported("strconv.FormatFloat of a non-constant float")
+		}
+		return e.strFromGo(strconv.FormatFloat(f.C, byte(e.concInt(a[1])), e.concInt(a[2]), e.concInt(a[3])))
+	})
+	reg("strconv.AppendFloat", func(e *Exec, fn *ssa.Function, a []Value) Value {
+		f := a[1].(Float)
+		if f.Opaque {
+			e.unsupported("strconv.AppendFloat of a non-constant float")
+		}
+		txt := strconv.FormatFloat(f.C, byte(e.concInt(a[2])), e.concInt(a[3]), e.concInt(a[4]))
+		s := a[0].(Slice)
+		el := append(append([]Value{}, e.sliceElems(s)...), e.strBytes(e.strFromGo(txt))...)
+		o := e.newObj(&Array{E: el}, "AppendFloat")
+		o.ownsArr = true
+		return Slice{A: ArrRef{Obj: o}, Len: len(el), Cap: len(el)}
 	})
 }
